@@ -485,7 +485,7 @@ class URL:
         ):
             # port normalization - using None for default ports to remove from rendering
             # https://datatracker.ietf.org/doc/html/rfc3986.html#section-6.2.3
-            host = self.host_subcomponent
+            host = self.host_subcomponent or ""
             netloc = make_netloc(self.raw_user, self.raw_password, host, None)
         else:
             netloc = self._netloc
